@@ -205,8 +205,66 @@ fn det_and_os<T: El>(out: &mut Out, rng: &mut Sm) {
     });
 }
 
+/// tail witnesses: seeds whose standard-normal reference stream contains a draw beyond 4.8 sigma among its first 65 536
+/// entries (about one stream in ten). A request that covers such a draw must return it: if the implementation follows the
+/// reference stream up to that entry (so it demonstrably draws this way) and then departs from it, extreme draws are
+/// being suppressed, clamped or redrawn — "independent standard-normal draws" have unbounded support.
+fn tail_witness<T: El>(out: &mut Out, rng: &mut Sm) {
+    let id = out.fresh_id("tail");
+    let first_seed = rng.below(1 << 20);
+    if !out.selected(&id) {
+        return;
+    }
+    guard_case(out, &id.clone(), "C18:panic", 65536, |out| {
+        let d = 256usize;
+        // the three most extreme draws among 200 reference streams of 65 536 entries (typically 5.2 - 5.8 sigma)
+        let mut best: Vec<(f64, u64, usize)> = vec![];
+        for seed in first_seed..first_seed + 200 {
+            let mut r = SmallRng::seed_from_u64(seed);
+            let (mut m, mut at) = (0.0f64, 0usize);
+            for k in 0..256 * d {
+                let z: f64 = StandardNormal.sample(&mut r);
+                if z.abs() > m {
+                    m = z.abs();
+                    at = k;
+                }
+            }
+            best.push((m, seed, at));
+        }
+        best.sort_by(|a, b| b.0.partial_cmp(&a.0).unwrap());
+        let mut found = 0;
+        for (m, seed, idx) in best.into_iter().take(3) {
+            let mut r = SmallRng::seed_from_u64(seed);
+            let reference: Vec<f64> = (0..256 * d).map(|_| StandardNormal.sample(&mut r)).collect();
+            let n = idx / d + 2;
+            let rows: Vec<Vec<T>> = init_with_seed(n.min(256), d, seed);
+            let flat: Vec<T> = rows.iter().flatten().cloned().collect();
+            out.count("predicate_evaluations");
+            let same = |k: usize| flat.get(k).map(|x| x.hex()) == T::from_f64(reference[k]).map(|x| x.hex());
+            if (0..idx).all(same) {
+                if !(idx..flat.len().min(reference.len())).all(same) {
+                    out.fail(&id, "C18:tail-draw-altered", "a draw far in the tail of the standard normal is suppressed or altered (the output follows the reference stream up to it and departs from it there)",
+                        (n * d) as u64, format!("{} seed {seed}: reference entry {idx} = {} ; returned {:?}", T::NAME, reference[idx], flat.get(idx)));
+                }
+                out.count("tail_witness_checked");
+                if out.notes.len() < 8 {
+                    out.notes.push(format!("tail witness {}: seed {seed}, entry {idx}, |z| = {m:.3}", T::NAME));
+                }
+            } else {
+                out.count("tail_witness_skipped_other_drawing_method");
+            }
+            found += 1;
+        }
+        if found == 0 {
+            out.count("tail_witness_none_found");
+        }
+    });
+}
+
 pub fn run(out: &mut Out) {
     let mut rng = out.rng("c18");
+    tail_witness::<f64>(out, &mut rng);
+    tail_witness::<f32>(out, &mut rng);
     let n = out.n(60, 1200);
     for i in 0..n {
         if i % 2 == 0 {
